@@ -660,6 +660,68 @@ func ruleSecretWhole(c *Checker) {
 		}
 		c.decide(okk && okCall, "HSK-SIB", "secret|stretchPassphrase uses the whole entropy", sp.Pos(), "scrypt.Key(entropy, entropy, ...) on the unmodified parameter",
 			"stretchPassphrase does not stretch the whole passphrase entropy ("+why+"): passphrases differing only in the ignored part are accepted as equal")
+		// ... on every call: each successful return hands out the output of a scrypt.Key call made in
+		// this invocation (a remembered result is only as good as the comparison that guards it - one
+		// that keeps a reference to the caller's buffer compares the buffer with itself), and the
+		// parameter is not retained
+		var keys []*ssa.Call
+		for _, ci := range findCalls(sp, func(ci ssa.CallInstruction) bool {
+			sc := ci.Common().StaticCallee()
+			return sc != nil && sc.Name() == "Key" && sc.Pkg != nil && strings.HasSuffix(sc.Pkg.Pkg.Path(), "scrypt")
+		}) {
+			if call, ok := ci.(*ssa.Call); ok {
+				keys = append(keys, call)
+			}
+		}
+		badRet := ""
+		allInstrs(sp, func(in ssa.Instruction) {
+			ret, ok := in.(*ssa.Return)
+			if !ok || ret.Block().Comment == "recover" {
+				return
+			}
+			succ := false
+			for _, v := range expandValues(ret.Results[len(ret.Results)-1]) {
+				if isNilConst(v) {
+					succ = true
+				}
+			}
+			if !succ {
+				return
+			}
+			for _, v := range expandValues(ret.Results[0]) {
+				okv := false
+				if ex, isEx := v.(*ssa.Extract); isEx && ex.Index == 0 {
+					for _, k := range keys {
+						if ex.Tuple == ssa.Value(k) {
+							okv = true
+						}
+					}
+				}
+				if !okv && !isNilConst(v) {
+					badRet = "returns " + w.canonFB(v) + " at " + w.pos(instrPos(ret))
+				}
+			}
+			if pathFromEntry(sp, ret, func(x ssa.Instruction) bool {
+				for _, k := range keys {
+					if x == ssa.Instruction(k) {
+						return true
+					}
+				}
+				return false
+			}) {
+				badRet = "return at " + w.pos(instrPos(ret)) + " reachable without scrypt.Key"
+			}
+		})
+		retained := ""
+		for _, r := range *p.Referrers() {
+			if st, ok := r.(*ssa.Store); ok && st.Val == ssa.Value(p) {
+				if _, isLocal := st.Addr.(*ssa.Alloc); !isLocal {
+					retained = w.pos(instrPos(st))
+				}
+			}
+		}
+		c.decide(badRet == "" && retained == "" && len(keys) == 1, "HSK-SIB", "secret|stretchPassphrase stretches on every call", sp.Pos(), "every successful return is the output of this call's scrypt.Key; the parameter is not retained",
+			"stretchPassphrase can hand out something other than this call's scrypt output ("+badRet+") or keeps a reference to the caller's secret (stored at "+retained+"): a stale stretched key of another passphrase can be used")
 	}
 	for _, n := range []string{"mailbox.ekeMask", "mailbox.ekeUnmask"} {
 		fn := mboxFunc(c, n)
@@ -746,6 +808,7 @@ func ruleSecretWhole(c *Checker) {
 		}
 	}
 	rulePatternSource(c, "HSK-SIB")
+	ruleSecretImmutable(c, "HSK-SIB")
 	// the handshake state keeps exactly what it was given
 	if nhs := mboxFunc(c, "mailbox.newHandshakeState"); nhs != nil {
 		f := w.Field("mailbox.handshakeState.passphraseEntropy")
@@ -1376,6 +1439,7 @@ func runC04(c *Checker) {
 	}, "SetRemote(remoteStatic) iff version >= HandshakeVersion2, after split, error checked")
 	rulePublishOrder(c, "PUBLISH")
 	ruleConnDataSetters(c, "PUBLISH", true)
+	ruleVersionConfig(c, "HSK-VER")
 	pub("SetAuthData", fRP, func(f Fact) bool { return f.Val && isLoadOfField(f.Cond, fInit) },
 		"SetAuthData(receivedPayload) iff initiator, after split, error checked")
 	c.floor("PUBLISH", 3)
@@ -1928,4 +1992,121 @@ func rulePatternSource(c *Checker, rule string) {
 	}
 	c.decide(bad == "" && nXX >= 1 && nKK >= 1, rule, "ConnData.HandshakePattern|XX without a remote key, KK with one", hp.Pos(), "XXPattern under remoteKey == nil, KKPattern under remoteKey != nil",
 		"ConnData.HandshakePattern does not return XX exactly while no remote key is stored and KK afterwards ("+bad+")")
+}
+
+// ruleSecretImmutable: the bytes of the pairing secret are never written. The slices that hold it
+// (ConnData.passphraseEntropy, handshakeState.passphraseEntropy, the parameters they are filled
+// from) alias the caller's buffer - the TCP listener hands the same slice to every connection - so
+// a wipe or an in-place transformation on one connection changes the secret of all others.
+func ruleSecretImmutable(c *Checker, rule string) {
+	w := c.w
+	isSecretField := func(f *types.Var) bool {
+		if f == nil || f.Pkg() == nil || !strings.HasSuffix(f.Pkg().Path(), "/mailbox") {
+			return false
+		}
+		return f.Name() == "passphraseEntropy" || f.Name() == "passphrase"
+	}
+	var isSecret func(v ssa.Value, d int) bool
+	isSecret = func(v ssa.Value, d int) bool {
+		if d > 6 {
+			return false
+		}
+		v = unwrapLoadAlloc(v)
+		switch x := v.(type) {
+		case *ssa.UnOp:
+			if x.Op == token.MUL {
+				if fa, ok := x.X.(*ssa.FieldAddr); ok {
+					return isSecretField(structFieldOf(fa))
+				}
+			}
+		case *ssa.Slice:
+			return isSecret(x.X, d+1)
+		case *ssa.Call:
+			// the accessor
+			if x.Common().IsInvoke() && x.Common().Method.Name() == "PassphraseEntropy" {
+				return true
+			}
+			if sc := x.Common().StaticCallee(); sc != nil && sc.Name() == "PassphraseEntropy" {
+				return true
+			}
+		case *ssa.Parameter:
+			if sl, ok := x.Type().Underlying().(*types.Slice); ok && types.Identical(sl.Elem(), types.Typ[types.Byte]) {
+				return x.Name() == "passphraseEntropy" && false // parameters are covered through the fields they are stored in
+			}
+		}
+		return false
+	}
+	n, bad := 0, ""
+	for _, fn := range w.Funcs {
+		if w.pkgShort(fn) != targetMbox || strings.HasSuffix(w.Fset.Position(fn.Pos()).Filename, "_test.go") {
+			continue
+		}
+		allInstrs(fn, func(in ssa.Instruction) {
+			switch x := in.(type) {
+			case *ssa.FieldAddr:
+				if isSecretField(structFieldOf(x)) {
+					n++
+				}
+			case *ssa.Store:
+				if ia, ok := x.Addr.(*ssa.IndexAddr); ok && isSecret(ia.X, 0) {
+					bad = "element store in " + fnName(fn) + " at " + w.pos(instrPos(x))
+				}
+			case *ssa.Call:
+				if bi, ok := x.Call.Value.(*ssa.Builtin); ok && (bi.Name() == "copy" || bi.Name() == "clear") && len(x.Call.Args) > 0 && isSecret(x.Call.Args[0], 0) {
+					bad = bi.Name() + " into the secret in " + fnName(fn) + " at " + w.pos(instrPos(x))
+				}
+			}
+		})
+	}
+	c.decide(bad == "" && n >= 4, rule, "secret|the bytes of the pairing secret are never written", token.NoPos, fmt.Sprintf("%d accesses of the secret-holding fields, no element store, copy or clear into them", n),
+		"the pairing secret is modified in place ("+bad+"): the slice aliases the buffer of whoever configured it (the listener shares one passphrase among all connections), so other handshakes run with a changed - e.g. all-zero, guessable - secret")
+}
+
+// ruleVersionConfig: the version range a handshake machine runs with is the configured one. A
+// type that carries its own minHandshakeVersion/maxHandshakeVersion (NoiseGrpcConn, set by the
+// With*HandshakeVersion options) hands exactly these two fields to every machine it builds - a
+// call site that takes the package default instead negotiates versions outside the configured
+// range on one role only. The option closures store their argument into the field of their name.
+func ruleVersionConfig(c *Checker, rule string) {
+	w := c.w
+	pairs := [][2]string{{"MinHandshakeVersion", "minHandshakeVersion"}, {"MaxHandshakeVersion", "maxHandshakeVersion"}}
+	n := 0
+	for _, pr := range pairs {
+		fCfg := w.Field("mailbox.BrontideMachineConfig." + pr[0])
+		fOwn := w.Field("mailbox.NoiseGrpcConn." + pr[1])
+		if fCfg == nil || fOwn == nil {
+			c.anchorFail("mailbox.BrontideMachineConfig." + pr[0] + " / NoiseGrpcConn." + pr[1])
+			continue
+		}
+		for _, st := range w.Stores(fCfg) {
+			fn := st.Parent()
+			if strings.HasSuffix(w.Fset.Position(instrPos(st)).Filename, "_test.go") || fn.Signature.Recv() == nil {
+				continue
+			}
+			if nn := namedOf(deref(fn.Signature.Recv().Type())); nn == nil || nn.Obj().Name() != "NoiseGrpcConn" {
+				continue
+			}
+			n++
+			c.decide(isLoadOfField(st.Val, fOwn), rule, fnName(fn)+"|machine "+pr[0]+" = the configured "+pr[1], instrPos(st), "cfg."+pr[0]+" = c."+pr[1],
+				fnName(fn)+" builds its handshake machine with "+w.canonFB(st.Val)+" as "+pr[0]+" instead of the configured "+pr[1]+": this role negotiates versions outside the range it was configured with")
+		}
+		// the option stores its argument into the field of its name
+		opt := w.Func("mailbox.With" + pr[0])
+		okOpt := false
+		if opt != nil {
+			for _, st := range w.Stores(fOwn) {
+				if st.Parent().Parent() == opt {
+					v := st.Val
+					if u, ok := v.(*ssa.UnOp); ok && u.Op == token.MUL {
+						v = u.X
+					}
+					if _, ok := v.(*ssa.FreeVar); ok && len(opt.Params) == 1 && len(st.Parent().FreeVars) == 1 {
+						okOpt = true
+					}
+				}
+			}
+		}
+		c.decide(okOpt, rule, "With"+pr[0]+"|sets "+pr[1], token.NoPos, "the option closure stores its argument into "+pr[1], "With"+pr[0]+" does not store its argument into "+pr[1])
+	}
+	c.decide(n >= 4, rule, "machine version range sites", token.NoPos, fmt.Sprintf("%d stores", n), fmt.Sprintf("only %d stores of the machine's version range found in NoiseGrpcConn methods (client and server handshake: 4)", n))
 }
